@@ -68,7 +68,7 @@ SPEC = {
             {"name": "one-byte appends/prepends; every prefix, suffix, one-byte deletion and duplication per base",
              "counter": "enum_one_byte_extensions, enum_cuts"},
         ]},
-    "rule_extra": ' Every Extract is executed twice over differently pre-filled stacks and must give the same outcome (extract-deterministic: ids decoded from memory the propagator never wrote are caught). Run e2-threads: case j = 2..8 threads doing 20..200 round trips each through ONE shared B3 single / B3 multi / Jaeger propagator object, under TSan with seeded yields/sleeps; each thread must read back its own ids and sampled bit.',
+    "rule_extra": ' Every Extract is executed twice over differently pre-filled stacks and must give the same outcome (extract-deterministic: ids decoded from memory the propagator never wrote are caught). Run e2-threads: case j = 2..8 threads doing 20..200 round trips each through ONE shared B3 single / B3 multi / Jaeger propagator object, under TSan with seeded yields/sleeps; each thread must read back its own ids and sampled bit. Round 2: one round trip in four is extracted into a context that already carries a local span with the ids and flags of the header.',
     "assumptions": ASSUME_COMMON + [
         "must-accept forms: b3 = tid(32|16 lowercase hex)-sid(16)[-(0|1|d)[-parent(16)]]; X-B3-TraceId(32|16)/X-B3-SpanId(16) with "
         "X-B3-Sampled absent|0|1; uber-trace-id = tid(32|16):sid(16):(0|parent16):flags(1-2 lowercase hex, sampled = bit 0); "
